@@ -40,7 +40,7 @@ func TestMain(m *testing.M) {
 // (b) hostile text
 
 // Sink kinds, in the order they appear in the skeleton.
-var sinkKinds = []string{"pkgdoc", "typedoc", "constcomment", "funcdoc", "logprintln", "logprintf", "fmtprintln", "strlit", "panicmsg", "strlit2", "funcdoc2", "blockdoc"}
+var sinkKinds = []string{"pkgdoc", "typedoc", "constcomment", "funcdoc", "logprintln", "logprintf", "fmtprintln", "strlit", "panicmsg", "strlit2", "funcdoc2", "blockdoc", "strlit3", "strlit4", "strlit5"}
 
 // HostileCase is one generated case.
 type HostileCase struct {
@@ -76,7 +76,7 @@ func classOf(tok string) string {
 }
 
 func genHostileText(t *rapid.T, label string) (string, []string) {
-	n := rapid.IntRange(1, 4).Draw(t, label+".n")
+	n := gen.Range(t, label+".n", 1, 4)
 	var sb strings.Builder
 	var classes []string
 	for i := 0; i < n; i++ {
@@ -102,7 +102,7 @@ func sanitize(kind, s string) string {
 		ev.Prune(swQuoteInComment)
 		s = strings.ReplaceAll(s, "\"", "q")
 	}
-	if (kind == "strlit" || kind == "strlit2") && ev.SwitchOn(swNewlineInString) && strings.ContainsAny(s, "\n\r") {
+	if strings.HasPrefix(kind, "strlit") && ev.SwitchOn(swNewlineInString) && strings.ContainsAny(s, "\n\r") {
 		ev.Prune(swNewlineInString)
 		s = strings.NewReplacer("\n", "n", "\r", "r").Replace(s)
 	}
@@ -151,7 +151,11 @@ func render(sinks map[string]string) string {
 	sb.WriteString("\ty := " + goString(g("strlit")) + "\n")
 	sb.WriteString("\treturn y + " + goString(g("strlit2")) + "\n}\n\n")
 	sb.WriteString(lineComment(g("funcdoc2")) + "\nfunc g(s S) uint64 {\n\treturn s.a + c\n}\n\n")
-	sb.WriteString(blockComment(g("blockdoc")) + "\nfunc h() uint64 {\n\treturn g(S{a: 1})\n}\n")
+	sb.WriteString(blockComment(g("blockdoc")) + "\nfunc h() uint64 {\n\treturn g(S{a: 1})\n}\n\n")
+	// string literals in other printing contexts: a one-line if branch, call arguments
+	sb.WriteString("func pick(a string, b string) string {\n\treturn a + b\n}\n\n")
+	sb.WriteString("func k(b bool) string {\n\tif b {\n\t\treturn " + goString(g("strlit3")) + "\n\t}\n")
+	sb.WriteString("\treturn pick(" + goString(g("strlit4")) + ", " + goString(g("strlit5")) + ")\n}\n")
 	return sb.String()
 }
 
@@ -159,6 +163,7 @@ type shape struct {
 	defs     []string // kind:name
 	bodies   map[string]string
 	strs     map[string][]string // string literals per definition, in order
+	panics   map[string][]string // Panic messages per definition, in order
 	comments int
 }
 
@@ -167,13 +172,20 @@ func shapeOf(text string) (*shape, error) {
 	if err != nil {
 		return nil, err
 	}
-	sh := &shape{bodies: map[string]string{}, strs: map[string][]string{}, comments: len(f.Comments)}
+	sh := &shape{bodies: map[string]string{}, strs: map[string][]string{}, panics: map[string][]string{}, comments: len(f.Comments)}
 	for _, d := range f.Defs() {
 		sh.defs = append(sh.defs, d.DefKind+":"+d.Name)
 		var lits []string
 		vread.Walk(d.Body, func(e vread.Expr) bool {
 			if l, ok := e.(vread.Lit); ok && l.Kind == "str" {
 				lits = append(lits, l.S)
+			}
+			if a, ok := e.(vread.App); ok && len(a.Args) == 1 {
+				if g, ok := vread.Strip(a.Fn).(vread.Gid); ok && g.Name == "Panic" {
+					if m, ok := vread.Strip(a.Args[0]).(vread.Str); ok {
+						sh.panics[d.Name] = append(sh.panics[d.Name], m.S)
+					}
+				}
 			}
 			return true
 		})
@@ -200,8 +212,10 @@ func mapExpr(e vread.Expr) vread.Expr {
 	case vread.Paren:
 		return vread.Paren{X: mapExpr(e.X)}
 	case vread.App:
-		if g, ok := vread.Strip(e.Fn).(vread.Gid); ok && g.Name == "Panic" {
-			return vread.App{Fn: e.Fn, Args: []vread.Expr{vread.Str{S: "§"}}}
+		if g, ok := vread.Strip(e.Fn).(vread.Gid); ok && g.Name == "Panic" && len(e.Args) == 1 {
+			if _, ok := vread.Strip(e.Args[0]).(vread.Str); ok {
+				return vread.App{Fn: e.Fn, Args: []vread.Expr{vread.Str{S: "§"}}}
+			}
 		}
 		args := make([]vread.Expr, len(e.Args))
 		for i, a := range e.Args {
@@ -278,9 +292,19 @@ func runHostile(c HostileCase) (msg string, reached bool) {
 		if !ok {
 			return fmt.Sprintf("non-structured error %T: %v", e, e), true
 		}
-		// only f contains rejectable text
-		_ = ce
-		rejected["f"] = true
+		// the rejected declaration is the function the error lies in (f or k hold rejectable text)
+		name := ""
+		for _, af := range ht.Files {
+			for _, d := range af.Decls {
+				if fd, ok := d.(*ast.FuncDecl); ok && fd.Pos() <= ce.Pos && ce.Pos < fd.End() {
+					name = fd.Name.Name
+				}
+			}
+		}
+		if name == "" {
+			return fmt.Sprintf("error outside every function of the skeleton: %v", ce), true
+		}
+		rejected[name] = true
 	}
 	got, err := shapeOf(ht.Text)
 	if err != nil {
@@ -324,6 +348,14 @@ func runHostile(c HostileCase) (msg string, reached bool) {
 		wantStrs := []string{c.Sinks["strlit"], c.Sinks["strlit2"]}
 		if strings.Join(got.strs["f"], "\x00") != strings.Join(wantStrs, "\x00") {
 			return fmt.Sprintf("string literals of f changed: got %q, want %q\n--- emitted ---\n%s", got.strs["f"], wantStrs, ht.Text), true
+		}
+		// (the text of a Panic message has no meaning in GooseLang; goose re-indents a message that
+		// contains a newline, which changes no structure — not compared)
+	}
+	if !rejected["k"] {
+		wantStrs := []string{c.Sinks["strlit3"], c.Sinks["strlit4"], c.Sinks["strlit5"]}
+		if strings.Join(got.strs["k"], "\x00") != strings.Join(wantStrs, "\x00") {
+			return fmt.Sprintf("string literals of k changed: got %q, want %q\n--- emitted ---\n%s", got.strs["k"], wantStrs, ht.Text), true
 		}
 	}
 	return "", true
@@ -371,7 +403,7 @@ func TestHostileText(t *testing.T) {
 		for _, k := range sinkKinds {
 			c.Sinks[k] = "x"
 		}
-		n := rapid.IntRange(1, 4).Draw(t, "nsinks")
+		n := gen.Range(t, "nsinks", 1, 4)
 		for i := 0; i < n; i++ {
 			k := sinkKinds[gen.Uniform(t, "sink", len(sinkKinds))]
 			txt, cl := genHostileText(t, "text")
